@@ -35,6 +35,16 @@ Corrections (what the oracle deliberately does NOT demand, see RULE):
     body through the function catalogue before firing `message_received` (C08's subject) and header-only functions
     ignore the body, so that delivery does not depend on SECS-II validity; S2F25 <B> and S7F3 <L <A> <B>> carry valid
     bodies.
+  * A message sent successfully twice with the same system bytes (retry) is expected to arrive twice; deliveries of
+    sends that reported failure or never returned (other than the corrupted one) are unconstrained.
+
+Findings on the unchanged tree (bucket keys):
+  * `corrupt-block-not-answered-with-nak:length<10` - a length byte corrupted to a value below 10: SecsIBlock.decode
+    raises struct.error (negative data length), the receiver thread swallows it, no NAK is sent; the tail of the block is
+    then read as an ENQ and answered with EOT (the sender's call still returns False because EOT != ACK).
+  * `after-fault:retry-delivered-with-stale-blocks-of-the-failed-attempt-prepended` - after a NAK in block k >= 2 of a
+    multi-block message the receiver keeps blocks 1..k-1 in `_incomplete_messages`; a retry with the same system bytes
+    reports success and is delivered with those stale blocks in front of its body.
 """
 
 from __future__ import annotations
@@ -57,13 +67,20 @@ RULE = (
     "fields or send_stream_function; body sizes 0, 1, 243, 244, 245, 488, 489, ~700, 2440 and random 0..760 bytes, i.e. "
     "1..10 blocks), per message a line plan (whole blocks | single bytes | uniform chunks | cuts after the length byte, "
     "inside the header, at the header/data boundary, before and between the checksum bytes | random cuts; virtual delays "
-    "0..5 s; 0..30 scheduling steps between chunks or full settle), an optional thread schedule seed, and at most one "
+    "0..1.2 s; 0..30 scheduling steps between chunks or full settle), an optional thread schedule seed, and at most one "
     "fault: one byte of one block replaced (length byte only downwards; header, data, checksum positions with a "
     "generated xor), optionally followed by fresh messages or a retry of the same message. Oracle: line transcript per "
     "block ENQ/EOT/reference block/ACK; send True => exactly one identical message_received at the peer; corrupted block "
     "=> first answer byte NAK, nothing delivered, send False; no send call hangs. After the fault only 'success => "
     "delivered once, intact' is demanded. Non-trivial = a multi-block message, or a plan that splits a block, or a "
-    "corruption; distinct by case hash."
+    "corruption; distinct by case hash. Plus a systematic sweep: every byte position of every block (two xor values; the "
+    "length byte with every smaller value) of one message with a 0- and a 2-byte body (quick) and a 244- and 245-byte "
+    "body (thorough), each followed by a fresh message in the other or the same direction."
+)
+EXHAUSTIVE_NOTE = (
+    "fault sweep: all 12/14 header+data+checksum positions x 2 xor values and all 10/12 smaller length values of the 13- and "
+    "15-byte blocks (quick); additionally all positions and all smaller length values of the blocks of a 244-byte and a "
+    "245-byte message (thorough). Everything else is sampled."
 )
 ASSUMPTIONS = [
     "SECS-I over TCP (SecsITcpSettings) runs the same SecsIProtocol line code as the serial connection class, which is not executable here (no serial device); both call on_connected/on_data/on_disconnected the same way",
@@ -76,9 +93,12 @@ BUDGET_S = {"quick": 100, "thorough": 900}
 
 ENQ, EOT, ACK, NAK = secsirig.ENQ, secsirig.EOT, secsirig.ACK, secsirig.NAK
 RAW_SF = [(1, 1), (1, 15), (2, 17), (5, 7), (7, 19), (14, 0), (0, 0), (12, 0)]  # catalogued header-only functions
-SIZES = [0, 1, 243, 244, 245, 488, 489, 700]
+SIZES = [245, 244, 489, 1, 488, 243, 0, 700]  # hypothesis favours the front of a sampled_from list
 CHUNK_CAP = 300  # chunks per message (cost bound, by construction)
 UPWARD = "length byte corrupted upwards (block never arrives; no T1/T2 timers)"
+# The statement does not say that the line must be usable after a NAK (see "Corrections"); flip this to turn the
+# observation "send call never returns after the fault" into a failure bucket of its own.
+AFTERMATH_HANG_IS_VIOLATION = False
 COINCIDENCE = "length byte corrupted downwards but the shortened frame has a matching checksum"
 
 
@@ -246,13 +266,15 @@ def case_strategy(draw):
         blk = draw(st.sampled_from(sorted({0, len(frames) - 1, len(frames) // 2})))
         frame = frames[blk]
         ln = frame[0]
-        cls = draw(st.sampled_from(["length", "header", "data", "checksum"]))
+        cls = draw(st.sampled_from(["data", "checksum", "header", "length"]))
         if cls == "data" and ln == 10:
             cls = "header"
+        if cls == "length" and ln == 10 and draw(st.integers(0, 3)):
+            cls = "checksum"  # every shortening of a header-only block is < 10 (one known bucket): keep that share small
         fault = {"msg": fi, "blk": blk}
         if cls == "length":
             fault["pos"] = 0
-            fault["newlen"] = min(ln - 1, draw(st.one_of(st.sampled_from([0, 1, 9, 10, 11, 253]), st.integers(0, 253))))
+            fault["newlen"] = min(ln - 1, draw(st.one_of(st.sampled_from([100, 252, 11, 10, 253, 12, 9]), st.integers(0, 253), st.integers(10, 253))))
             if draw(st.booleans()):
                 msgs[fi]["plan"].setdefault("extra", []).append([blk, fault["newlen"] + 3])
         else:
@@ -393,6 +415,8 @@ def run_case(case, obs=None):
                     cls.append(f"after-fault:{kind}:send-never-returns")
                     cls.append(f"after-fault:send-never-returns:after-fault-in-{pcls}")
                     unconstrained[recv].add(r["fields"]["sys"])
+                    if AFTERMATH_HANG_IS_VIOLATION:
+                        return Failure(f"after-fault:send-never-returns:after-fault-in-{pcls}", case, {"line": _show(_merge(info["emitted"])[-4:]), "blocked": info["blocked"]}, "send call returns")
                     break
                 if info["result"] is True:
                     cls.append(f"after-fault:{kind}:send-succeeded")
@@ -567,13 +591,53 @@ def body_fn(ctx):
     return body
 
 
+def sweep_cases(size, quick):
+    """Systematic fault sweep: EVERY byte position of every block of one message (header, data, checksum positions with
+    two xor values; the length byte with every smaller value), followed by one fresh message."""
+    base = {"from": "A", "via": "message", "kind": "raw", "n": size, "fill": 0x31, "sf": [1, 1], "dev": 1, "r": 0, "w": 1, "sys": 0x100}
+    follow = {"from": "B", "via": "message", "kind": "S2F25", "n": 3, "fill": 7, "dev": 2, "r": 1, "w": 0, "sys": 0x201, "plan": {}}
+    plans = [{}, {"every": 1}, {"cuts": [[1, -2, -1]]}, {"every": 5, "steps": [0, 2, 7]}]
+    probe = {"a_host": True, "dev": [0, 0], "sched": {"seed": 0}, "msgs": [dict(base, plan={})]}
+    frames = resolve(probe)[0]["frames"]
+    k = 0
+    for blk, fr in enumerate(frames):
+        ln = fr[0]
+        faults = [{"msg": 0, "blk": blk, "pos": pos, "xor": x} for pos in range(1, ln + 3) for x in ((0x01, 0x80) if quick or ln < 100 else (0x01 if pos % 2 else 0x80,))]
+        faults += [{"msg": 0, "blk": blk, "pos": 0, "newlen": nl} for nl in range(0, ln)]
+        for flt in faults:
+            k += 1
+            pl = dict(plans[k % len(plans)])
+            if pl.get("every") == 1 and ln > 60:
+                pl = {"every": 1, "only": [blk]} if k % 8 == 1 else {"cuts": [[flt["pos"], flt["pos"] + 1]]}
+            if flt["pos"] == 0 and k % 3 == 0:
+                pl = dict(pl, extra=[[blk, flt["newlen"] + 3]])
+            sched = {"seed": 0} if k % 4 else {"seed": 1000 + k, "switch": 0.3}
+            yield {"a_host": bool(k % 2), "dev": [0, 0], "sched": sched, "msgs": [dict(base, **{"from": "A" if k % 3 else "B"}, plan=pl), dict(follow, **{"from": "B" if k % 5 else "A"})], "fault": flt}
+
+
 def plan(tier, seed):
-    per = 60 if tier == "quick" else 1500
-    return [("gen", {"shard": i, "n": per}) for i in range(16)]
+    quick = tier == "quick"
+    per = 100 if quick else 1500
+    tasks = []  # the systematic sweeps first: they must not be starved when the budget is hit on a loaded machine
+    for size in (0, 2) if quick else (245, 244, 0, 2):
+        of = 1 if size < 100 else 8
+        tasks += [("sweep", {"size": size, "shard": i, "of": of}) for i in range(of)]
+    tasks += [("gen", {"shard": i, "n": per}) for i in range(16)]
+    return tasks
 
 
 def run_task(name, kw, ctx):
-    ctx.hyp(case_strategy(), body_fn(ctx), kw["n"], seed_offset=kw["shard"])
+    body = body_fn(ctx)
+    if name == "gen":
+        ctx.hyp(case_strategy(), body, kw["n"], seed_offset=kw["shard"])
+    else:
+        for i, case in enumerate(sweep_cases(kw["size"], ctx.tier == "quick")):
+            if i % kw["of"] != kw["shard"]:
+                continue
+            if ctx.out_of_time():
+                break
+            ctx.count("sweep")
+            ctx.report(body(case))
 
 
 def replay(case, ctx):
